@@ -379,6 +379,8 @@ def run_schedule(texts, dflts, schedule):
 
 
 SCHED_DOCS = {
+    "early-tags-a": ("Feature: a\n @x\n # c\n Scenario: s\n  Given x\n", "en"),
+    "early-tags-b": ("Feature: b\n @y\n\n @z\n Scenario Outline: o\n  Given <a>\n @e\n Examples:\n", "en"),
     "doc": ("Feature: f\n Scenario: s\n  Given x\n   \"\"\"\n    a\n   \"\"\"\n", "en"),
     "fr": ("#language: fr\nFonctionnalité: f\n @t\n # c\n Scénario: s\n  Soit x\n", "en"),
     "tags": ("Feature: f\n Scenario Outline: o\n  Given <a>\n @e\n\n Examples:\n  | a |\n", "en"),
@@ -507,11 +509,11 @@ def run(ctx):
     ctx.units("shared-keyword-dialect-pairs", unit_shared_keywords, [{"shard": i, "nshards": ns} for i in range(ns)], procs=ns)
     ctx.units("sampled-histories", unit_sampled, [{"n": 180 if q else 2000, "seed": ctx.seed, "shard": i} for i in range(8 if q else 16)], procs=16)
     ctx.units("matcher-reset", unit_reset, [{"n": 1500 if q else 8000, "seed": ctx.seed, "shard": i} for i in range(8 if q else 16)], procs=16)
-    ctx.units("interleavings-exhaustive", unit_schedules, [{"maxreads": 4 if q else 6, "shard": i, "nshards": ns} for i in range(ns)], procs=ns)
+    ctx.units("interleavings-exhaustive", unit_schedules, [{"maxreads": 5 if q else 7, "shard": i, "nshards": ns} for i in range(ns)], procs=ns)
     ctx.units("interleavings-sampled", unit_schedules_sampled, [{"n": 90 if q else 800, "seed": ctx.seed, "shard": i} for i in range(8 if q else 16)], procs=16)
     ctx.exhaustive = False
     ctx.extra["exhaustive_part"] = ("all ordered pairs%s of %d state-perturbing documents x 3 matcher defaults x 3 stop-mode patterns; all interleavings of the first %d reads of every pair of %d small documents" % (
-        " (and a 1/3 sample of triples)" if q else " and triples", len(POOL), 4 if q else 6, len(SCHED_DOCS)))
+        " (and a 1/3 sample of triples)" if q else " and triples", len(POOL), 5 if q else 7, len(SCHED_DOCS)))
     ctx.rule = ("histories: documents fed to ONE Parser + ONE TokenMatcher + ONE Compiler (pool: dialect switch by header, unterminated doc strings of both kinds, 11-error cap, pending "
                 "tag run, unknown language, ragged table, deep rule stack, stop-mode failures...) - each result must equal fresh instances modulo the id offset, compile must not "
                 "modify its input, the language table must stay unchanged; matcher level: any sequence of match_* calls then reset() == fresh matcher (classic and Markdown); "
